@@ -325,7 +325,7 @@ Ltac micro_cases H :=
     let sf := fresh "sf" in let sy := fresh "sy" in let Esp := fresh "Esp" in
     destruct (spins c) as [sf sy] eqn:Esp end;
   cbn in H; try discriminate H;
-  unfold ok, drop_opt, drop_val, bad, check_val, alloc_obj, dealloc_obj, use_obj, unlock, claim, deliver, hist, tick in H;
+  unfold ok, gmd_next, drop_opt, drop_val, bad, check_val, alloc_obj, dealloc_obj, use_obj, unlock, claim, deliver, hist, tick in H;
   cbn in H; break_hyp H; try discriminate H;
   repeat match type of H with
   | context [release_handle ?c ?S] =>
